@@ -165,6 +165,15 @@ def _raises_encode_error(h):
     return False
 
 
+def _entails(fm, text):
+    """the condition formula (sem.cond_formula) entails that the canonical literal `text` is true"""
+    if fm[0] == 'lit':
+        return fm[1] == text and fm[2] is True
+    if fm[0] == 'and':
+        return any(_entails(x, text) for x in fm[1])
+    return bool(fm[1]) and all(_entails(x, text) for x in fm[1])
+
+
 def check(ctx):
     model = ctx.model
     cg = CallGraph(model)
@@ -513,12 +522,11 @@ def check(ctx):
                         ok = True
                         how = 'try/except KeyError -> EncodeError'
             if not ok:
+                want = sem._cmp(n.slice, ast.In(), base)[0]
                 for test, pol in flow.guards_of(n, f):
-                    ts = ast.unparse(test)
-                    if pol and ('%s in %s' % (keysrc, mapsrc)) in ts:
-                        ok = True
-                        how = 'dominated by membership test'
-                    if (not pol) and ('%s not in %s' % (keysrc, mapsrc)) in ts:
+                    # does the guard, with the polarity it has here, entail `key in map`?  (canonical literals: `not k in m`, `k not in m` under
+                    # the else arm, conjunctions ...; a disjunction entails it only if every alternative does)
+                    if _entails(sem.cond_formula(test, pol), want):
                         ok = True
                         how = 'dominated by membership test'
             cons = '%s [%s[%s]]' % (Model.qual(f), mapsrc, keysrc)
